@@ -14,4 +14,5 @@ MUTANTS = [
     ('c05-raise-skips-effects', 'C05', M, "        self._currently_handling = None\n        self._eventDone(event, err)", "        self._currently_handling = None\n        if err is None or not getattr(event, 'cause', None):\n            self._eventDone(event, err)"),
     # revert of repair 2e2b7b6
     ('c05-revert-tick-marks-thread-for-tasks', 'C05', M, "                self._flushing_thread = current_thread()\n                for task in self._tasks.copy():", "                for task in self._tasks.copy():"),
+    ('c05-sleeping-handler-not-counted-as-waiting', 'C05', M, '                # TODO: The subtask is considered a "waiting handler"\n                event.waitingHandlers += 1\n', '                # TODO: The subtask is considered a "waiting handler"\n'),
 ]
